@@ -27,6 +27,23 @@ pub fn ms_str(ms: u64) -> String {
     format!("{}.{:03}", ms / 1000, ms % 1000)
 }
 
+/// The same number of seconds in another decimal spelling (a server need not print exactly three decimals):
+/// trailing zeros trimmed (`2.5`, `2`), two decimals, six decimals, a leading zero-less fraction is NOT used
+/// (not every float parser takes `.5`). `sel` picks the spelling; the value denoted is always exactly `ms` ms.
+pub fn ms_spell(ms: u64, sel: u64) -> String {
+    let canon = ms_str(ms);
+    match sel % 5 {
+        0 => {
+            let t = canon.trim_end_matches('0');
+            t.trim_end_matches('.').to_string()
+        }
+        1 if ms % 10 == 0 => format!("{}.{:02}", ms / 1000, ms % 1000 / 10),
+        2 => format!("{}000", canon),
+        3 if ms % 100 == 0 => format!("{}.{}", ms / 1000, ms % 1000 / 100),
+        _ => canon,
+    }
+}
+
 pub fn close(d: Duration, ms: u64) -> bool {
     let want = Duration::from_millis(ms);
     let diff = if d > want { d - want } else { want - d };
@@ -40,6 +57,31 @@ pub const TIMESTAMPS: &[(&str, i64)] = &[
     ("2000-02-29T23:59:59Z", 951868799),
     ("2024-12-31T23:59:59Z", 1735689599),
     ("2021-03-04T05:06:07Z", 1614834367),
+    // the same instant as the first entry with a numeric offset / fractional seconds (RFC 3339 allows both)
+    ("2020-06-12T19:23:00+01:30", 1591984380),
+    ("2020-06-12T12:53:00-05:00", 1591984380),
+    ("2020-06-12T17:53:00.500Z", 1591984380),
+];
+
+/// Values that are NOT timestamps of the protocol's format (ISO 8601 / RFC 3339 date-time with zone): near misses a
+/// lenient parser would take, and which would then denote a wrong or unintended instant.
+pub const BAD_TIMESTAMPS: &[&str] = &[
+    "2020-13-45T99:99:99Z",
+    "yesterday",
+    "",
+    "2020-06-12 17:53:00",
+    "12-12-12T12:12:12Z",
+    "2012-12-12T12:12:12 UTC",
+    "2012-12-12T12:12:12+0130",
+    " 2012-12-12T12:12:12Z",
+    "2012-12-12T12:12:12Z ",
+    "+2012-12-12T12:12:12Z",
+    "2012-12-12T12:12Z",
+    "2012-12-12",
+    "2012-12-12T12:12:12",
+    "2012-02-30T00:00:00Z",
+    "20121212T121212Z",
+    "1591984380",
 ];
 
 pub fn gen_u64_edge(r: &mut Rng) -> u64 {
@@ -67,7 +109,7 @@ pub fn gen_ms(r: &mut Rng) -> u64 {
 }
 
 pub fn gen_name(r: &mut Rng) -> String {
-    const N: &[&str] = &["foo", "foo bar", "a=b", "=", "x=", "=y", "a==b", "Ünï cödé", "日本語", "with: colon", " lead", "trail ", "OK", "list_OK", "ACK [5@0] {} x", "a/b/c.mp3", "http://example.com/stream?x=1&y=2", "it's \"quoted\"", "back\\slash"];
+    const N: &[&str] = &["foo", "foo bar", "a=b", "=", "x=", "=y", "a==b", "Ünï cödé", "日本語", "with: colon", " lead", "trail ", "OK", "list_OK", "ACK [5@0] {} x", "a/b/c.mp3", "http://example.com/stream?x=1&y=2", "it's \"quoted\"", "back\\slash", "cr\rinside", "trailing cr\r", "\ttab"];
     if r.chance(1, 3) {
         let n = r.range(1, 12);
         (0..n).map(|_| (b'a' + r.below(26) as u8) as char).collect()
